@@ -260,7 +260,7 @@ def layerSpecAnswer (a : Args) : String :=
         objects := strList (a.get "lobj"), anything := a.get "la" == "1" }
     let arch := archOf a
     let ls := parseLayers (a.get "lres")
-    let dom := s!"{if arch.wf then "w" else "-"}{if PtaSpec.layerDomain arch ls r then "d" else "-"}"
+    let dom := s!"{if arch.wf then "w" else "-"}{if PtaSpec.layerDomain' arch ls r then "d" else "-"}"
     s!"S={if PtaSpec.layerVerdict arch ls r then "PASS" else "FAIL"} D={dom}"
 
 def renderLRClass : PtaSpec.LRClass → String
@@ -305,11 +305,20 @@ def handleLabel (a : Args) : String :=
   let sAns := if aliases.all (fun p => nodes.contains p.1) then
       "OK:" ++ joinStr "," (canonSet (nodes.map fun n => enc n ++ ">" ++ enc (PtaSpec.label sal (toName n))))
     else "ERR:lookupError"
+  -- `kw=` lists keyword names; a token `k:v` carries an opaque value token `v` (':' never occurs in an encoded string),
+  -- a bare name `k` gets the value token equal to its name
   let kw := (splitList "," (a.get "kw")).map fun k =>
-    if k == "spacing" then KwArg.spacing else if k == "aliases" then .aliases else .other (dec k)
-  let kwOut := joinStr "," (canonSet ((drawKwargs kw).map fun k => match k with
-    | .spacing => "spacing" | .aliases => "aliases" | .pos => "pos" | .labels => "labels" | .other n => enc n))
-  s!"M={mAns} S={sAns} K={kwOut}"
+    if k == "spacing" then KwArg.spacing else if k == "aliases" then .aliases else
+      match k.splitOn ":" with
+      | [n, v] => .other (dec n) (dec v)
+      | _ => .other (dec k) (dec k)
+  let out := drawKwargs kw
+  let kwOut := joinStr "," (canonSet (out.map fun k => match k with
+    | .spacing => "spacing" | .aliases => "aliases" | .pos => "pos" | .labels => "labels" | .other n _ => enc n))
+  -- the passed-through pairs in the ORDER the backend receives them (`K=` keeps its format: the sorted key set)
+  let kvOut := joinStr "," (out.filterMap fun k => match k with
+    | .other n v => some (enc n ++ ":" ++ enc v) | _ => none)
+  s!"M={mAns} S={sAns} K={kwOut} KV={kvOut}"
 
 
 /-! ### scans -/
@@ -321,14 +330,75 @@ def parseStmt (s : String) : Option ImportStmt :=
     some (.impFrom (if m == "%n" then none else some (dec m)) (names.map dec) (lvl.toNat?.getD 0))
   | _ => none
 
+/-! #### the AST of a file (`T:` field of an entry)
+
+  `T:<tok>!<tok>!…` — the tree in PREFIX notation (a node, then its children in order), tokens joined by `!`:
+  * `I~<field>~<name>~<name>…`                      an `ast.Import` with its alias names (a leaf)
+  * `F~<field>~<level>~<module or %n>~<name>…`      an `ast.ImportFrom` (a leaf)
+  * `O~<field>~<class>~<k>`                         any other node, followed by its `k` children
+  `<field>` = name of the parent's field the node sits in (empty or `%e` for the root); every string `enc`-encoded.
+  The token list must be exactly one tree (its root is the `ast.Module` node). -/
+
+/-- an open `O` node: its path, how many children are still to come, the index of the next one -/
+structure TFrame where
+  path : List Nat
+  remaining : Nat
+  next : Nat
+
+/-- close the nodes whose children are complete -/
+def popDone : List TFrame → List TFrame
+  | f :: fs => if f.remaining == 0 then popDone fs else f :: fs
+  | [] => []
+
+/-- one token at position `path`: the node and the number of children that follow -/
+def parseNodeTok (tok : String) (path : List Nat) : Option (AstNode × Nat) :=
+  match tok.splitOn "~" with
+  | "I" :: field :: names => some ({ path := path, kind := .imp (names.map dec), field := dec field }, 0)
+  | "F" :: field :: lvl :: m :: names =>
+    lvl.toNat?.map fun l =>
+      ({ path := path, kind := .impFrom (if m == "%n" then none else some (dec m)) (names.map dec) l, field := dec field }, 0)
+  | ["O", field, cls, k] => k.toNat?.map fun k => ({ path := path, kind := .other (dec cls), field := dec field }, k)
+  | _ => none
+
+/-- the nodes in pre-order with their paths; `none` unless the tokens are exactly one tree -/
+def parseTreeToks : List String → List TFrame → Bool → List AstNode → Option (List AstNode)
+  | [], stack, started, acc => if stack.isEmpty && started then some acc.reverse else none
+  | tok :: rest, stack, started, acc =>
+    let place : Option (List Nat × List TFrame) :=
+      match stack with
+      | [] => if started then none else some ([], [])
+      | f :: fs => some (f.path ++ [f.next], { f with remaining := f.remaining - 1, next := f.next + 1 } :: fs)
+    match place with
+    | none => none
+    | some (path, stack') =>
+      match parseNodeTok tok path with
+      | none => none
+      | some (node, k) =>
+        parseTreeToks rest (popDone ({ path := path, remaining := k, next := 0 } :: stack')) true (node :: acc)
+
+def parseTree (v : String) : Option (List AstNode) := parseTreeToks (splitList "!" v) [] false []
+
+/-- the `T:` field of an entry, if any (4th field; also accepted in 3rd position) -/
+def treeField (fields : List String) : Option String :=
+  (fields.find? fun f => f.startsWith "T:").map fun f => String.ofList (f.toList.drop 2)
+
+/-- an entry carries a `T:` field that is not a tree -/
+def badTree (s : String) : Bool :=
+  match treeField ((s.splitOn "|").drop 2) with
+  | some t => (parseTree t).isNone
+  | none => false
+
+/-- `rel|kind[|stmts[|T:tree]]`: with a tree, the statements are what the model's walk collects from it -/
 def parseEntry (s : String) : Option (Entry × Bool) :=
   match s.splitOn "|" with
   | rel :: kind :: rest =>
     let comps := (splitList "/" rel).map dec
-    let stmts := match rest with
-      | [st] => (splitList "+" st).filterMap parseStmt
-      | _ => []
-    some ({ rel := comps, isDir := kind.startsWith "d", stmts := stmts }, kind.endsWith "x")
+    let tree := ((treeField rest).bind parseTree).getD []
+    let stmts := match treeField rest, rest with
+      | some _, _ => collectImports tree
+      | none, [st] => (splitList "+" st).filterMap parseStmt
+      | none, _ => []
+    some ({ rel := comps, isDir := kind.startsWith "d", stmts := stmts, tree := tree }, kind.endsWith "x")
   | _ => none
 
 def parsePatterns (v : String) : Patterns :=
@@ -345,10 +415,23 @@ def toSStmt : ImportStmt → PtaSpec.SStmt
   | .imp names => .imp (names.map toName)
   | .impFrom m names lvl => .impFrom (m.map toName) names lvl
 
+def toSNode (n : AstNode) : PtaSpec.SNode :=
+  { path := n.path, field := n.field,
+    kind := match n.kind with
+      | .imp names => .imp (names.map toName)
+      | .impFrom m names lvl => .impFrom (m.map toName) names lvl
+      | .other _ => .other }
+
+/-- the statements the specification sees: with a tree, ALL its import nodes (`PtaSpec.allImports` — not the
+    model's walk); otherwise the listed statements -/
+def specStmts (e : Entry) : List PtaSpec.SStmt :=
+  if e.tree.isEmpty then e.stmts.map toSStmt else PtaSpec.allImports (e.tree.map toSNode)
+
 def handleScan (a : Args) : String :=
   let base := dec (a.get "base")
   let rootName := dec (a.get "root")
   let mp := (splitList "/" (a.get "mp")).map dec
+  if (splitList ";" (a.get "ents")).any badTree then "BAD tree" else
   let ents := (splitList ";" (a.get "ents")).filterMap parseEntry
   let table := parseMatchTable (a.get "mtab")
   let o : ScanOptions :=
@@ -360,7 +443,7 @@ def handleScan (a : Args) : String :=
   let sents : List PtaSpec.SEntry := ents.map fun (e, x) =>
     let name := match e.rel.getLast? with | some n => n | none => []
     { rel := e.rel, isDir := e.isDir, isPy := !e.isDir && isPyFile name, stem := dropSuffix name,
-      excludedHere := x, stmts := e.stmts.map toSStmt }
+      excludedHere := x, stmts := specStmts e }
   let smods := PtaSpec.scanModules rootName sents mp
   let sAns := match PtaSpec.scanImports rootName sents mp with
     | none => "ERR"
@@ -372,6 +455,7 @@ def handleScanNames (a : Args) : String :=
   let base := dec (a.get "base")
   let rootName := dec (a.get "root")
   let mp := (splitList "/" (a.get "mp")).map dec
+  if (splitList ";" (a.get "ents")).any badTree then "BAD tree" else
   let ents := ((splitList ";" (a.get "ents")).filterMap parseEntry).map (·.1)
   let table := parseMatchTable (a.get "mtab")
   let o : ScanOptions := { exclusions := parsePatterns (a.get "ex"), excludeExternal := false }
